@@ -1,6 +1,7 @@
 package main
 
 import (
+	"sort"
 	"bytes"
 	"encoding/json"
 	"errors"
@@ -579,14 +580,109 @@ func c12Tree(r *ev.Run, tr c12tree, dir string, otherCp *c12cp) *c12cp {
 			}
 		}
 	}
+	// File creator under interrupted creation / deletion: the checkpoint directory of a root holds what a
+	// process that died inside CreateCheckpoint (chunk files 0..k-1 written, no metadata yet) or inside
+	// DeleteCheckpoint (metadata removed, chunk files k.. still there) left behind under other parameters;
+	// creating the checkpoint again must give exactly the metadata and chunk bytes of a clean creation.
+	var fileCases int64
+	if small {
+		var keys []string
+		for k := range distinct {
+			keys = append(keys, k)
+		}
+		sort.Strings(keys)
+		if len(keys) > 4 {
+			keys = append(keys[:2], keys[len(keys)-2:]...)
+		}
+		for _, k1 := range keys {
+			for _, k2 := range keys {
+				if k1 == k2 {
+					continue
+				}
+				fileCases += c12FileCases(src, tr, distinctParams[k1], distinctParams[k2], distinct[k1], distinct[k2], violate)
+			}
+		}
+	}
+	r.Add("file_creator_recreations_after_interruption", fileCases)
 	r.Add("states", int64(len(distinct)))
-	r.Add("transitions", creations+restores+corruptions)
+	r.Add("transitions", creations+restores+corruptions+fileCases)
 	r.Add("checkpoint_creations", creations)
 	r.Add("restores", restores)
 	r.Add("corrupted_restores", corruptions)
 	r.Add("structurally_forged_chunks", structural)
 	r.Sample(map[string]any{"tree": tr.Name, "keys": len(tr.Contents), "distinct_chunkings": len(distinct), "one_chunk_bytes": len(one.chunks[0])}, 6)
 	return one
+}
+
+// c12FileCases: see the comment at the call site.  p = {chunk size, chunker threads}.
+func c12FileCases(src *c12Source, tr c12tree, p1, p2 [2]uint64, cp1, cp2 *c12cp, violate func(a c12Artefact, what string)) (cases int64) {
+	n1 := len(cp1.chunks)
+	for _, mode := range []string{"creation interrupted after", "deletion interrupted before"} {
+		for k := 0; k <= n1; k++ {
+			cases++
+			what := func() string {
+				c12seq.Lock()
+				c12seq.n++
+				d := filepath.Join(src.dir, fmt.Sprintf("fc%d", c12seq.n))
+				c12seq.Unlock()
+				defer os.RemoveAll(d)
+				fc, err := checkpoint.NewFileCreator(d, src.ndb)
+				if err != nil {
+					return "harness: " + err.Error()
+				}
+				if _, err = fc.CreateCheckpoint(kv.Ctx, src.root, p1[0], uint16(p1[1])); err != nil {
+					return "first CreateCheckpoint failed: " + err.Error()
+				}
+				cpDir := filepath.Join(d, fmt.Sprint(src.root.Version), src.root.Hash.String())
+				if err = os.Remove(filepath.Join(cpDir, "meta")); err != nil {
+					return "harness: " + err.Error()
+				}
+				for i := 0; i < n1; i++ {
+					gone := i >= k // creation: files k.. were never written
+					if mode != "creation interrupted after" {
+						gone = i < k // deletion: files 0..k-1 are already removed
+					}
+					if gone {
+						if err = os.Remove(filepath.Join(cpDir, "chunks", fmt.Sprint(i))); err != nil {
+							return "harness: " + err.Error()
+						}
+					}
+				}
+				meta, err := fc.CreateCheckpoint(kv.Ctx, src.root, p2[0], uint16(p2[1]))
+				if err != nil {
+					return "CreateCheckpoint over the leftovers failed: " + err.Error()
+				}
+				if metaKey(meta) != metaKey(cp2.meta) || !meta.Root.Equal(&cp2.meta.Root) {
+					return "metadata differs from that of a clean creation with the same root and parameters"
+				}
+				got, err := fc.GetCheckpoint(kv.Ctx, 1, src.root)
+				if err != nil || metaKey(got) != metaKey(meta) {
+					return fmt.Sprintf("GetCheckpoint does not return the created metadata (err=%v)", err)
+				}
+				for i := range meta.Chunks {
+					cm, err := meta.GetChunkMetadata(uint64(i))
+					if err != nil {
+						return err.Error()
+					}
+					var buf bytes.Buffer
+					if err := fc.GetCheckpointChunk(kv.Ctx, cm, &buf); err != nil {
+						return fmt.Sprintf("chunk %d cannot be read: %v", i, err)
+					}
+					if hash.NewFromBytes(buf.Bytes()) != meta.Chunks[i] {
+						return fmt.Sprintf("served chunk %d (%d bytes) does not hash to its digest in the metadata (clean chunk: %d bytes)", i, buf.Len(), len(cp2.chunks[i]))
+					}
+					if !bytes.Equal(buf.Bytes(), cp2.chunks[i]) {
+						return fmt.Sprintf("served chunk %d differs from the chunk of a clean creation", i)
+					}
+				}
+				return ""
+			}()
+			if what != "" {
+				violate(c12Artefact{ChunkSize: p2[0], Threads: uint16(p2[1]), Scenario: fmt.Sprintf("file creator: %s %d of %d chunk files of a checkpoint with chunk size %d / %d threads", mode, k, n1, p1[0], p1[1])}, what)
+			}
+		}
+	}
+	return cases
 }
 
 func runC12(r *ev.Run) {
